@@ -425,13 +425,25 @@ def analyse_function(relpath, fn, loader, iterable_params):
         if not has_inner_app and root.level != "app":
             pass
         for n in nodes:
-            if isinstance(n, ast.Return) and n.value is not None and not has_inner_app and not curried:
-                # e.g. `rs = ReplaySubject(...); return ops.multicast(subject=rs)`
+            if isinstance(n, ast.Return) and n.value is not None and not curried and takes_no_source(fn):
+                # e.g. `rs = ReplaySubject(...); return ops.multicast(subject=rs)` - in ANY return statement of the factory (one branch may build
+                # the operator from other operators while another defines an application function of its own)
                 for m in ast.walk(n.value):
-                    if isinstance(m, ast.Name) and root.bound.get(m.id) in ("subject", "mutable", "oneshot") and takes_no_source(fn):
+                    if isinstance(m, ast.Name) and root.bound.get(m.id) in ("subject", "mutable", "oneshot"):
                         findings.append(Finding("C44", fn.name, f"factory-object-in-operator/{m.id}",
                                                 f"`{m.id}` ({root.bound.get(m.id)}) is created once per call of {fn.name}(...) and captured by the "
                                                 f"returned operator: every application of that operator object shares it", n.lineno))
+                # ... or allocated inline in the returned expression: `return ops.multicast(subject=Subject())`
+                stack = [n.value]
+                while stack:
+                    m = stack.pop()
+                    if isinstance(m, (ast.Lambda, ast.FunctionDef, ast.AsyncFunctionDef)):
+                        continue  # what a lambda allocates is allocated when IT runs
+                    if isinstance(m, ast.Call) and alloc_kind(m) == "subject" and (getattr(m.func, "id", None) or getattr(m.func, "attr", None)) in SUBJECT_CTORS:
+                        findings.append(Finding("C44", fn.name, f"factory-object-in-operator/{(getattr(m.func, 'id', None) or getattr(m.func, 'attr', None))}()",
+                                                f"a subject is created once per call of {fn.name}(...) inside the expression that builds the returned operator: "
+                                                f"every application of that operator object shares it", n.lineno))
+                    stack.extend(ast.iter_child_nodes(m))
     # a factory without a source parameter (ops.x(args) returns the operator): a closure it defines and hands on (a subject factory,
     # a mapper wrapper, ...) runs once per application / subscription - if it assigns a variable of the factory, every application
     # of the operator object and every subscription shares that state (C44)
